@@ -56,7 +56,12 @@ def peewee_v2_to_sqlite_v1(datastore):
             bucket["hostname"],
             bucket["created"],
             bucket["name"],
+            bucket["data"],
         )
         bucket_events = pw_db.get_events(bucket_id, -1)
+        # The ids belong to the legacy database, with an id set the events
+        # would be treated as updates of rows that don't exist and be dropped
+        for event in bucket_events:
+            event.id = None
         datastore.insert_many(bucket_id, bucket_events)
     logger.info("Migration of peewee v2 to sqlite v1 finished")
